@@ -10,7 +10,7 @@ TB_COMMON = [
 
 NOT_YET = {}
 # specs present but not claimed right now (proofs under repair after a cross-branch model change)
-DISABLED = {"C14"}
+DISABLED = set()
 
 SPECS = {
     "C18": {
@@ -176,15 +176,15 @@ SPECS["C03"] = node_spec(
 P_NOTE = " The abstract protocol P/Election.v is tied to the code by the executable acceptor P/ElectionAccept.v (proved sound: an accepted trace is a P execution), run on the P-level event trace (per-call term/vote/role, hard-state hand-out and fsync, released vote requests/grants/leader traffic, crashes, restarts) of every simulated execution up to its first applied membership change."
 
 SPECS["C02"] = node_spec(
-    "C02", ["hard", "msgs.vote"], "election_safety",
+    "C02", [], "election_safety",
     "Props/C02.v: in every execution of the abstract election protocol (any interleaving of campaigns, grants, hand-out/fsync of hard states, releases, duplicated/delayed/reordered messages, crashes at any point, restarts from the durable image; pre-vote/check-quorum/priority/transfer over-approximated by free choice) at most one node ever takes the leader role in a term when no single node is a quorum, and for every configuration (single-voter groups included) leaders with a durable own vote are unique per term and at most one node ever releases traffic as leader of a term; the role-level statement is refuted with an explicit witness for a single voter whose own vote need not be durable (the defect F1 found and fixed in /repo)." + P_NOTE,
     "the voter configuration is fixed within an execution: elections racing single-step or joint membership changes are not covered by the theorems (only by the pointwise differential and the monitor).",
     "DESIGN.md section 7, C02; section 2.2-2.3",
-    "Theorems: Props/C02.v over P/Election.v. Ties: (B) acceptor on P-level traces; (A) pointwise differential of M/Raft.v on hard state + vote traffic.",
+    "Theorems: Props/C02.v over P/Election.v. Deciding tie: (B) acceptor on P-level traces (the pointwise differential (A) is diagnostic only for this property: a behaviour change that P still allows does not fail it).",
     acceptor="pelection")
 
 SPECS["C06"] = node_spec(
-    "C06", ["hard", "result", "rawnode", "msgs.vote", "msgs.resp"], "persist_before_send",
+    "C06", ["result", "rawnode"], "persist_before_send",
     "Props/C06.v: in every execution of the abstract election protocol a node grants at most one candidate its vote in any term, ever (across crashes and restarts); every released vote grant, vote request and leader message is covered by the sender's durable (term, vote) and by its volatile state, so a restart from stable storage is never behind what it told others; within an incarnation the term never decreases." + P_NOTE + " The Ready-level release discipline (which messages a Ready holds back until persistence) is tied by the pointwise differential on Ready contents and RawNode bookkeeping.",
     "append acknowledgements and the log part of 'never behind' need the log layer of P and are not yet proved.",
     "DESIGN.md section 7, C06; section 2.2-2.3",
